@@ -5,6 +5,12 @@
 //	                     table of fields_test.go and the alternative big-integer encodings.
 //	TestKeysetRoundTrip  keysets of 1..5 keys through every writer / reader pair, Public(), and primitive
 //	                     interoperability between the original handle and the copy (keyset_test.go).
+//
+// Finding signatures consulted through kf.Listed("C12", sig):
+//
+//	jwt-custom-kid-parameters-lossy:<JwtType>   SerializeParameters of JWT parameters with kid strategy
+//	    CUSTOM yields the template of IGNORED-kid parameters (output prefix RAW, no field for the
+//	    strategy): ParseParameters(SerializeParameters(p)) is not Equal to p.
 package c12
 
 import (
@@ -22,15 +28,11 @@ import (
 	"github.com/tink-crypto/tink-go/v2/verifharness/internal/evid"
 	"github.com/tink-crypto/tink-go/v2/verifharness/internal/keys"
 	"github.com/tink-crypto/tink-go/v2/verifharness/internal/kf"
-	"github.com/tink-crypto/tink-go/v2/verifharness/internal/legacykm"
 )
 
 const propID = "C12"
 
-func TestMain(m *testing.M) {
-	legacykm.Register()
-	evid.Main(m)
-}
+func TestMain(m *testing.M) { evid.Main(m) }
 
 // knownOrFail fails the case unless the coordinator has listed the finding signature.
 func knownOrFail(rt *rapid.T, sig, msg string) {
